@@ -163,6 +163,7 @@ func main() {
 		out["readCmd"] = cmdSwitches(drv)
 		out["keepAlive"] = keepAliveFacts(drv)
 		out["supervisor"] = supervisorFacts(drv)
+		out["readSide"] = readFacts(llrp)
 		enc := json.NewEncoder(os.Stdout)
 		enc.SetIndent("", " ")
 		if err := enc.Encode(out); err != nil {
